@@ -18,7 +18,7 @@ import (
 )
 
 func TestMain(m *testing.M) {
-	vlib.Rule("C16: rapid-generated EC layouts (1-2 data centers, 1-6 racks x 1-5 servers, free shard slots from below 0 to ~40 derived from max/active volume counts, 1-6 EC volumes in collections \"\",c1,c2 whose 14 shards are partitioned over few or many servers, partly missing, duplicated, or given as arbitrary per-server bitmaps) are handed as master_pb.TopologyInfo to the real ec.balance planning code (dry run, EACH_COLLECTION or a named collection, optional -dataCenter) through weed/shell/verif_export.go; every printed move is replayed in order on an independent model and the planner's final EcNode bookkeeping is compared with the model. Non-trivial = >=2 racks and >=1 planned move. Distinct = distinct (layout, command, plan) text.")
+	vlib.Rule("C16: rapid-generated EC layouts (1-2 data centers, 1-6, 7, 8, 10 or 14 racks x 1-5 servers (7 and 14 divide the 14 shards evenly), free shard slots from below 0 to ~40 derived from max/active volume counts, 1-6 EC volumes in collections \"\",c1,c2 whose 14 shards are partitioned over few or many servers, spread evenly over the racks with one rack taking over the shards of one to three others whose servers are then full, partly missing, duplicated, or given as arbitrary per-server bitmaps) are handed as master_pb.TopologyInfo to the real ec.balance planning code (dry run, EACH_COLLECTION or a named collection, optional -dataCenter) through weed/shell/verif_export.go; every printed move is replayed in order on an independent model and the planner's final EcNode bookkeeping is compared with the model. Non-trivial = >=2 racks and >=1 planned move. Distinct = distinct (layout, command, plan) text.")
 	vlib.Assume("C16: ec.balance is driven through a shim that repeats the body of commandEcBalance.Do after the topology fetch (no master, no lock); the collection list the master would return is the set of EC collections of the layout, in a drawn order; rack identity is the rack id (as in ec.balance itself), rack ids are unique across data centers; the planner's many Go-map iterations make its choices vary between runs of the same input, each run is judged on its own output.")
 	vlib.Main(m)
 }
@@ -135,7 +135,9 @@ func (l *layout) topology() *master_pb.TopologyInfo {
 
 func genLayout(t *rapid.T) *layout {
 	l := &layout{colls: map[uint32]string{}}
-	nRack := rapid.IntRange(1, 6).Draw(t, "nRack")
+	// 7 and 14 racks are the counts (besides 1 and 2) that divide the 14 shards evenly: there the
+	// even-spread target has no slack and an off-by-one in it shows
+	nRack := rapid.SampledFrom([]int{1, 2, 3, 4, 5, 6, 1, 2, 3, 4, 5, 6, 7, 7, 7, 14, 8, 10}).Draw(t, "nRack")
 	twoDC := rapid.IntRange(0, 4).Draw(t, "twoDC") == 0
 	k := 0
 	for r := 1; r <= nRack; r++ {
@@ -144,6 +146,9 @@ func genLayout(t *rapid.T) *layout {
 			dc = "dc2"
 		}
 		nNode := rapid.IntRange(1, 5).Draw(t, "nNode")
+		if nRack > 6 && nNode > 2 {
+			nNode = 2
+		}
 		for i := 0; i < nNode; i++ {
 			k++
 			l.nodes = append(l.nodes, node{dc: dc, rack: fmt.Sprintf("rk%d", r), id: fmt.Sprintf("n%d:8080", k), hasHdd: true, shards: map[uint32]uint32{}})
@@ -159,6 +164,7 @@ func genLayout(t *rapid.T) *layout {
 		}
 	}
 	allowDup := !vlib.Known(keyDryRunDedup)
+	full := map[int]bool{} // servers that get no free shard slot
 	nVol := rapid.IntRange(1, 6).Draw(t, "nVol")
 	for v := 1; v <= nVol; v++ {
 		vid := uint32(v)
@@ -179,6 +185,48 @@ func genLayout(t *rapid.T) *layout {
 				}
 			}
 			continue
+		}
+		if mode == 8 || mode == 7 && nRack >= 7 {
+			// even spread plus a bump: shard s goes to rack s mod #racks (the even-spread target exactly
+			// when #racks divides 14), then one to three racks hand all their shards to one heavy rack and
+			// (mostly) have no free slot left, so that the only racks with room are already at the target
+			rackNodes := map[int][]int{}
+			for _, i := range hdd {
+				var r int
+				fmt.Sscanf(l.nodes[i].rack, "rk%d", &r)
+				rackNodes[r-1] = append(rackNodes[r-1], i)
+			}
+			var usable []int
+			for r := 0; r < nRack; r++ {
+				if len(rackNodes[r]) > 0 {
+					usable = append(usable, r)
+				}
+			}
+			if len(usable) >= 2 {
+				heavy := usable[rapid.IntRange(0, len(usable)-1).Draw(t, "heavyRack")]
+				donors := map[int]bool{}
+				for d := rapid.IntRange(1, 3).Draw(t, "donorRacks"); d > 0; d-- {
+					if r := usable[rapid.IntRange(0, len(usable)-1).Draw(t, "donorRack")]; r != heavy {
+						donors[r] = true
+					}
+				}
+				for sh := 0; sh < totalShards; sh++ {
+					r := usable[sh%len(usable)]
+					if donors[r] {
+						r = heavy
+					}
+					ns := rackNodes[r]
+					l.nodes[ns[rapid.IntRange(0, len(ns)-1).Draw(t, "holderInRack")]].shards[vid] |= 1 << uint(sh)
+				}
+				if rapid.IntRange(0, 4).Draw(t, "donorsFull") > 0 {
+					for r := range donors {
+						for _, i := range rackNodes[r] {
+							full[i] = true
+						}
+					}
+				}
+				continue
+			}
 		}
 		// the 14 shards partitioned over a subset of the servers
 		spread := rapid.IntRange(1, len(hdd)).Draw(t, "spread")
@@ -212,12 +260,15 @@ func genLayout(t *rapid.T) *layout {
 			continue
 		}
 		want := rapid.OneOf(rapid.IntRange(-5, 40), rapid.IntRange(-3, 3)).Draw(t, "freeSlots")
+		if full[i] {
+			want = -rapid.IntRange(0, 3).Draw(t, "fullBy")
+		}
 		slots := want + n.shardCount()
 		if slots < 0 {
 			slots = 0
 		}
 		kk := slots / 10
-		if slots%10 != 0 && rapid.Bool().Draw(t, "roundUp") {
+		if slots%10 != 0 && !full[i] && rapid.Bool().Draw(t, "roundUp") {
 			kk++
 		}
 		n.activeVol = rapid.IntRange(0, 3).Draw(t, "activeVolumes")
